@@ -466,7 +466,8 @@ impl TTS {
         fn compute_bookmark_element<'c, 's:'c, 'm, 'r>(value: &TTSCommandValue, tag_and_attr: &str, rules_with_context: &'r mut SpeechRulesWithContext<'c, 's, 'm>, mathml: Element<'c>) -> Result<String> {
             match value {
                 TTSCommandValue::XPath(xpath) => {
-                    let id = xpath.replace::<String>(rules_with_context, mathml)?;
+                    // the id is used as it is (it is a name, not text to be spoken: a one letter id such as 'x' is not to be spelled out)
+                    let id = xpath.evaluate(rules_with_context.get_context(), mathml)?.into_string();
                     return Ok( format!("<{}='{}'/>", tag_and_attr, id) );
                 },
                 _ => bail!("Implementation error: found bookmark value that did not evaluate to a string"),
